@@ -62,6 +62,7 @@ type Contract struct {
 	Partial   bool     // only the explicit clauses (post/inv/dec) are claimed: implicit obligations (no-panic, callee preconditions, frame) are assumed, i.e. the clauses hold for runs that return normally
 	Prune     bool     // check branch feasibility during symbolic execution and skip infeasible branches
 	AssumeDead map[string]string // "file.go:line" of the first statement of a branch -> label: assumed never taken (listed)
+	WaivePre   map[string]string // "callee.label" -> reason: that precondition is neither proved nor assumed at the call sites in this function (listed)
 	AssumePre  map[string]string // "callee.label" -> reason: that precondition of that callee is assumed at the call sites in this function (listed)
 	Reveal    []string // opaque spec predicates whose definition this function's proof may use
 	AllowPanic []string // explicit panic kinds that are part of the specified behaviour
@@ -110,7 +111,7 @@ var clauseKeywords = map[string]bool{
 	"requires": true, "ensures": true, "ensures_assumed": true, "modifies": true, "loop": true, "decreases": true,
 	"props": true, "pure": true, "trusted": true, "func": true, "spec": true, "ghost": true,
 	"lemma": true, "axiom": true, "assume": true, "package": true, "nopanic": true, "iface": true,
-	"callback": true, "invariant": true, "assumedead": true, "assumepre": true,
+	"callback": true, "invariant": true, "assumedead": true, "assumepre": true, "waivepre": true,
 	"allowpanic": true, "delegates": true, "reveal": true, "owned": true, "prune": true, "partial": true,
 }
 
@@ -334,6 +335,15 @@ func (p *Program) parseClause(c *Contract, word, rest, src string) error {
 			c.AssumePre = map[string]string{}
 		}
 		c.AssumePre[w] = strings.TrimSpace(r)
+	case "waivepre":
+		// waivepre callee.label reason words...: the labelled precondition of callee is neither proved nor added
+		// to the state at the call sites in this function (it concerns a typestate that does not apply there);
+		// listed as an assumption in the evidence
+		w, r := splitWord(rest)
+		if c.WaivePre == nil {
+			c.WaivePre = map[string]string{}
+		}
+		c.WaivePre[w] = strings.TrimSpace(r)
 	case "assumedead":
 		// assumedead file.go:LINE label words...
 		w, r := splitWord(rest)
